@@ -89,4 +89,7 @@ func vh_C13_merlin() {
 		same3 = same3 && out[i] == rout[i]
 	}
 	verif.Assert(same3, "transcript RNG output = meta-AD(LE32(n)); PRF(n) after rekeying with 32 bytes of entropy")
+	// the fill operation is absorbed into the RNG state whatever its length (incl. 0): a later read depends on it
+	tr, isT := rng.(*transcriptRng)
+	verif.Assert(isT && *tr.s == *rs, "RNG state after Read(n) = state after meta-AD(LE32(n)); PRF(n), also for n = 0")
 }
